@@ -19,8 +19,10 @@ one() {
   for p in $props; do
     out=$(GTVERIF_REPO=$d/repo GTVERIF_VERIF=$d/verif /verif/bin/gtverif check -prop $p -tier quick 2>&1); rc=$?
     if [ $rc -ne 0 ]; then
-      keys=$(echo "$out" | grep -B2 '^VIOLATION' | grep -o '\[[^]]*\]' | head -3 | tr '\n' ' ')
-      fired="$fired $p{$keys}"
+      keys=$(echo "$out" | grep -v '^NOTE' | grep -o '^[^ ]*: \[[^]]*\]\( undecided:\)\?' | sed 's/^[^ ]*: //; s/\] undecided:/]?/' | head -4 | tr '\n' ' ')
+      nv=$(echo "$out" | grep -v '^NOTE' | grep '^[^ ]*: \[' | grep -vc 'undecided:')
+      nu=$(echo "$out" | grep -v '^NOTE' | grep '^[^ ]*: \[' | grep -c 'undecided:')
+      fired="$fired $p(v=$nv,u=$nu){$keys}"
     fi
   done
   echo "$name:${fired:- MISSED}"
